@@ -15,10 +15,12 @@ package helper
 
 import (
 	"context"
+	"fmt"
 
 	asv1 "github.com/pingcap/advanced-statefulset/client/apis/apps/v1"
 	asclientset "github.com/pingcap/advanced-statefulset/client/client/clientset/versioned"
 	appsv1 "k8s.io/api/apps/v1"
+	apiequality "k8s.io/apimachinery/pkg/api/equality"
 	apierrors "k8s.io/apimachinery/pkg/api/errors"
 	metav1 "k8s.io/apimachinery/pkg/apis/meta/v1"
 	clientset "k8s.io/client-go/kubernetes"
@@ -46,6 +48,12 @@ const (
 func Upgrade(ctx context.Context, c clientset.Interface, asc asclientset.Interface, sts *appsv1.StatefulSet) (*asv1.StatefulSet, error) {
 	selector, err := metav1.LabelSelectorAsSelector(sts.Spec.Selector)
 	if err != nil {
+		return nil, err
+	}
+	// The builtin StatefulSet is deleted at the end, so everything its spec says must survive the conversion. A
+	// field the Advanced StatefulSet does not have (e.g. spec.ordinals) would be dropped silently and the pods would
+	// then be reconciled against a different spec; decline before anything is touched.
+	if err := representable(sts); err != nil {
 		return nil, err
 	}
 	// It's important to empty statefulset selector labels,
@@ -124,4 +132,20 @@ func Upgrade(ctx context.Context, c clientset.Interface, asc asclientset.Interfa
 	}
 	klog.V(2).Infof("Succesfully deleted the old builtin StatefulSet %s/%s", sts.Namespace, sts.Name)
 	return asts, nil
+}
+
+// representable returns an error if converting sts to an Advanced StatefulSet and back loses part of its spec.
+func representable(sts *appsv1.StatefulSet) error {
+	asts, err := FromBuiltinStatefulSet(sts)
+	if err != nil {
+		return err
+	}
+	back, err := ToBuiltinStatefulSet(asts)
+	if err != nil {
+		return err
+	}
+	if !apiequality.Semantic.DeepEqual(sts.Spec, back.Spec) {
+		return fmt.Errorf("StatefulSet %s/%s uses spec fields that an Advanced StatefulSet cannot represent, refusing to upgrade it", sts.Namespace, sts.Name)
+	}
+	return nil
 }
